@@ -2,6 +2,7 @@ import Mp4ff.Model.Walk
 import Mp4ff.Lemmas.C04
 import Mp4ff.Lemmas.C04Leaf
 import Mp4ff.Expect.Transcribed
+import Mp4ff.Lemmas.C04Senc
 /-!
 # C04 — untrusted container input never crashes, hangs or balloons memory
 What a theorem can carry of this property: the *structural* part of container decoding (`Model/Walk.lean`, the
@@ -51,6 +52,18 @@ theorem decode_alloc_bound (f : Nat) (L : List Layout.Syn) (hL : Layout.listRepO
     (bs : Bytes) (tr : Layout.Trace) (rest : Bytes) (h : Layout.decode f L acc bs = some (tr, rest)) :
     rest.length ≤ bs.length ∧ tr.length ≤ acc.length + (bs.length - rest.length) + Layout.listTopFlds L :=
   Layout.decode_alloc_bound f L hL acc bs tr rest h
+
+/-- **the second-stage senc parser (no sub-sample entries) never allocates more IV slots than the box has per-sample
+    bytes**, whatever sample count the box announces and whatever IV size the context (tenc / seig) hands in; the check
+    is the Go code's 64-bit product, modelled on natural numbers (`Model/SencSize.lean`, tied by the `sencsize` op) -/
+theorem senc_slots_le (iv count left : Nat) : SencSize.slots iv count left ≤ left := SencSize.slots_le iv count left
+
+/-- … and a senc it accepts holds every IV it announces: `IVs read * IV size ≤ bytes in the box`, IV size 0, 8 or 16 -/
+theorem senc_parse_fits (iv count left v n : Nat) (h : SencSize.parse iv count left = some (v, n)) :
+    n * v ≤ left ∧ (n = 0 ∨ n = count) ∧ (v = 0 ∨ v = 8 ∨ v = 16) := SencSize.parse_fits iv count left v n h
+
+/-- non-vacuity of the senc model: 2^28+1 sixteen-byte IVs announced in 16 bytes are rejected, three IVs in 48 bytes read -/
+example : SencSize.parse 16 (2^28+1) 16 = none ∧ SencSize.parse 16 3 48 = some (16, 3) ∧ SencSize.parse 0 3 24 = some (8, 3) := by decide
 
 /-- non-vacuity: a moov holding an mvhd-sized leaf and an empty trak -/
 example : (walk ([0,0,0,24] ++ [0x6d,0x6f,0x6f,0x76] ++ [0,0,0,8,0x66,0x72,0x65,0x65] ++ [0,0,0,8,0x74,0x72,0x61,0x6b])).map countAll
